@@ -368,7 +368,7 @@ func C09Corpus(args []string) {
 		if tier == "thorough" {
 			step = 3
 		}
-		if n%step == 0 {
+		if n%step == 0 || strings.Contains(c.ID, "/12.12/") {
 			progs = append(progs, hx.NewProgram(c.Rules, grl.Style{}))
 		}
 	})
